@@ -1,6 +1,6 @@
 (* C29 — property theorems only: each closed by [exact lemma], followed by Print Assumptions. *)
 From Coq Require Import List NArith ZArith Bool.
-From Verif Require Import C29.Model C29.Proof.
+From Verif Require Import C29.Model C29.Proof C29.Proof2.
 Import ListNotations.
 
 (* typeutil.Identical on the modelled term language is decidable structural identity *)
@@ -23,9 +23,53 @@ Theorem C29_from_reflect_simple : forall r, simple r = true ->
 Proof. exact from_reflect_simple. Qed.
 Print Assumptions C29_from_reflect_simple.
 
-(* ---- histories.  [FRspec] = "FromReflectType meets its specification on every term"; it is proved above for terms
-   without func/struct components and is an explicit premise for the rest (_partial: the list-shaped cases of
-   fromReflectFunc/fromReflectStruct are not proved; they are covered by the correspondence runs). ---- *)
+(* FromReflectType meets its specification on EVERY clean term (func and struct included: fromReflectFunc /
+   fromReflectStruct fold FromReflectType over the parameter/result/field lists), for every universe satisfying the
+   invariant: the invariant is kept, the universe is only extended, the result is THE cache entry of the term *)
+Theorem C29_from_reflect_spec : FRspec.
+Proof. exact from_reflect_spec. Qed.
+Print Assumptions C29_from_reflect_spec.
+
+(* ---- histories (no premise: FRspec is the closed theorem above) ---- *)
+
+(* C29_canonical: for ALL construction histories (constructors, FromReflectType, in any order, with any repetitions)
+   two results are the same object exactly when the histories' terms are identical *)
+Theorem C29_canonical : forall ops i j a b,
+  nth_error (snd (run ops)) i = Some (Some a) -> nth_error (snd (run ops)) j = Some (Some b) ->
+  (a = b <-> nth_error (denote ops) i = nth_error (denote ops) j).
+Proof. exact canonical_closed. Qed.
+Print Assumptions C29_canonical.
+
+(* C29_pairing_invariant: the go/types side and the reflect side of every result denote the term the history
+   specifies (induction over construction histories) *)
+Theorem C29_pairing_invariant : forall ops i a,
+  nth_error (snd (run ops)) i = Some (Some a) ->
+  exists t x, nth_error (denote ops) i = Some (Some t) /\ get (fst (run ops)) a = Some x /\ ogt x = t /\ ort x = t.
+Proof. exact pairing_closed. Qed.
+Print Assumptions C29_pairing_invariant.
+
+(* the universe invariant holds after every history, and every result is the cache entry of the term it denotes *)
+Theorem C29_invariant : forall ops,
+  Inv (fst (run ops)) /\ Forall2 (rel (fst (run ops))) (snd (run ops)) (denote ops).
+Proof. exact run_inv_closed. Qed.
+Print Assumptions C29_invariant.
+
+(* an operation is rejected exactly when the specification says it is ill-formed *)
+Theorem C29_rejected : forall ops i,
+  nth_error (snd (run ops)) i = Some None <-> nth_error (denote ops) i = Some None.
+Proof. exact rejected_closed. Qed.
+Print Assumptions C29_rejected.
+
+(* without NamedOf/SetUnderlying no object is ever Forward, recursive or incomplete: the only non-canonical path of
+   maketype4 (mismatched reflect.Type: a second object for the same term) is unreachable *)
+Theorem C29_no_forward : forall ops id x,
+  get (fst (run ops)) id = Some x -> is_fwd (ort x) = false /\ oopt x = ODefault.
+Proof. exact no_forward_closed. Qed.
+Print Assumptions C29_no_forward.
+
+(* ---- SUPERSEDED by the un-premised theorems above (kept: other files may refer to them).  They carry [FRspec] =
+   "FromReflectType meets its specification on every term" as an explicit premise; that premise is now the closed
+   theorem C29_from_reflect_spec, so nothing is missing any more. ---- *)
 
 (* C29_canonical: for ALL construction histories (constructors, FromReflectType, in any order, with any repetitions)
    two results are the same object exactly when the histories' terms are identical *)
